@@ -5,12 +5,15 @@ from plasTeX.Packages import report
 def ProcessOptions(options, document): # type: ignore
     report.ProcessOptions(options, document)
     document.context['thesection'].format = '${section}'
-    document.context['theindex'].counter = 'section'
-    document.context['theindex'].level = Environment.SECTION_LEVEL
-    document.context['printindex'].counter = 'section'
-    document.context['printindex'].level = Command.SECTION_LEVEL
-    document.context['bibliography'].counter = 'section'
-    document.context['bibliography'].level = Command.SECTION_LEVEL
+    # The index and the bibliography are section-level units in this class.
+    # Give this document its own subclasses instead of patching the shared
+    # classes, which would change them for every later document as well.
+    for name, level in [('theindex', Environment.SECTION_LEVEL),
+                        ('printindex', Command.SECTION_LEVEL),
+                        ('bibliography', Command.SECTION_LEVEL)]:
+        base = document.context[name]
+        document.context[name] = type(base.__name__, (base,),
+                                      {'counter': 'section', 'level': level})
 
 class appendix(Command): # type: ignore
 
